@@ -84,6 +84,11 @@ class Amuset(probe.Contract):
             if near_cut(s, CUT) or s[0] <= 0:
                 c.skip('amuset_reduced_cut_on_a_singular_value')
                 continue
+            if s[0] <= 1e-9 * float(np.linalg.norm(Psi, 2)):
+                # the x-snapshots sit (up to rounding) on common zeros of the basis functions: Psi_x is numerically zero and the
+                # relative cut of its rounding-level singular values is void (the numerically-zero class of DESIGN section 7)
+                c.skip('amuset_x_block_numerically_zero')
+                continue
             K = np.linalg.pinv(Px.T, rcond=CUT) @ Py.T
             if not np.all(np.isfinite(K)) or float(np.linalg.norm(K, 2)) < 1e-6:
                 # (numerically) zero EDMD matrix - e.g. the y-snapshots sit on common zeros of the basis functions: every
